@@ -12,7 +12,7 @@ def main(tier: str, seed: int) -> int:
             "IN u OUT or shown atoms, costs), hence satisfiability. non-trivial = unused changed the program and the "
             "outcome varies over instances")
     bounds = {"producers": len(fam.PRODUCERS), "mids": len(fam.MIDS), "consumers": len(fam.CONSUMERS), "outs": len(fam.OUTS)}
-    return generic.family_main(PROP, tier, seed, fam.jobs(tier), rule, bounds)
+    return generic.family_main(PROP, tier, seed, generic.with_variants(fam.jobs(tier), tier), rule, dict(bounds, variants=True))
 
 
 def replay(path: str) -> int:
